@@ -260,6 +260,58 @@ def rules(ctx, db):
             ctx.ob("R6", "notified-key-is-popped-key:" + f.name, ok,
                    "the completed entry is built from the key popped for this event", f)
 
+        # the poll never blocks while finished operations wait in the completion channel (thread-pool results and the
+        # entries of cancelled descriptor operations are queued without any wake)
+        pf = [f for f in db.fns.values() if f.name == "compio_driver::sys::driver::poll::Driver::poll"]
+        if not pf:
+            ctx.missing("R6", "poll::Driver::poll")
+        for f in pf:
+            from ..util import value_switches
+            waits = calls(f, r"polling::Poller::wait$")
+            ies = [(bb, t) for bb, t in calls(f, r"flume::Receiver::<T>::is_empty$") if not waits or any(f.cfg.dominates(bb, wb) for wb, _ in waits)]
+            ok = bool(waits) and bool(ies)
+            detail = "the blocking wait and the test of the completion channel were located"
+            if ok:
+                wb, wt = waits[0]
+                tl = op_place(wt["args"][2])
+                # the local the wait's timeout is copied from
+                tloc = None
+                if tl is not None:
+                    for r in f.cfg.origins(tl["l"]):
+                        if r[0] == "arg":
+                            tloc = r[1]
+                ok = tloc is not None
+                if ok:
+                    rewrites = {bi for bi, si, st in f.stmts() if st.get("a") and st["a"]["l"] == tloc and not st["a"]["p"]}
+                    # forbidden edges: the `channel is empty` edges of switches on is_empty()
+                    empty_edges = set()
+                    for bb, t in ies:
+                        for sw in value_switches(f, t["dst"]["l"]):
+                            if sw["kind"] != "bool":
+                                continue
+                            f_t = sw["targets"].get("0")
+                            t_t = sw["otherwise"]
+                            if f_t is None:
+                                continue
+                            # is_empty() true edge; `inverted` when the scrutinee is !is_empty()
+                            e_t = f_t if sw["inverted"] else t_t
+                            empty_edges.add((sw["bb"], e_t))
+                    seen, work = set(), [0]
+                    while work:
+                        x = work.pop()
+                        if x in seen or x in rewrites:
+                            continue
+                        seen.add(x)
+                        for y in f.cfg.succ[x]:
+                            if (x, y) in empty_edges:
+                                continue
+                            work.append(y)
+                    ok = wb not in seen and bool(rewrites) and bool(empty_edges)
+                    detail = "every path to the wait either saw an empty completion channel or replaced the timeout" if ok else \
+                        "the wait is reachable with the caller's timeout although the completion channel was not seen empty"
+            ctx.ob("R6", "poll-does-not-block-on-queued-completions", ok,
+                   "poll(): " + detail + " (a queued completion is delivered by this poll instead of sleeping on it)", f)
+
     # R8 fusion dispatch: every method of the fused driver forwards to the same-named method of whichever driver is active
     fus = [f for f in db.fns.values() if f.impl and f.impl.get("self_adt") == "compio_driver::sys::driver::fusion::Driver"
            and f.short not in ("new", "as_iour", "as_iour_mut", "default_extra", "as_raw_fd", "fmt")]
